@@ -345,6 +345,24 @@ func (w *world) afterRecv(c *xchain, in *intent, out *txOutcome) {
 	}
 	w.wire = append(w.wire, &wireMsg{kind: "ack", from: c.idx, to: src.idx, packet: pk.bytes, ack: acks[0].Ack, height: c.CurHdr.Height, key: triple, dropped: map[int]bool{}})
 	w.rec.Probe(fmt.Sprintf("recv.ok.code%d.call%d", minU(a.Code, 9), pk.call))
+	// C05: the acknowledgement is the callback's result, or an error acknowledgement if the callback fails.
+	// Where the destination execution certainly fails (target reverts, post-transaction hook fails, the
+	// nested send has no client to go to) a success acknowledgement misreports the outcome.
+	mustFail := ""
+	switch {
+	case pk.call == callRevert && !pk.nested:
+		mustFail = "target_reverts"
+	case pk.call == callHookFail && !pk.nested:
+		mustFail = "hook_fails"
+	case pk.call == callAgent && !pk.nested && pk.agent != nil && pk.agent.agentDstName == "nowhere-9":
+		mustFail = "nested_send_without_client"
+	}
+	if mustFail != "" {
+		w.rec.Probe("recv.must_fail." + mustFail)
+		if a.Code == 0 {
+			w.rec.Violate("C05", "ack_misreports_failure", mustFail, "receive of %s: the destination execution fails (%s) but a success acknowledgement was written", triple, mustFail)
+		}
+	}
 	// nested sends triggered by the received packet (agent contract)
 	var nested []*pkt
 	for _, e := range out.events {
